@@ -89,6 +89,7 @@ class Net:
       def read(self, n):
         net.fs.tick('net-read')          # a process crash can also happen while waiting for the network
         if self.nread == net.fail_block:
+          net.fail_block = -1          # a transient fault: the next request (a retry inside the same call included) goes through
           raise NetFault('connection reset')
         k = self.nread
         self.nread += 1
@@ -279,7 +280,7 @@ def final_paths():
 def cache_state_ok(fs):
   cpath, dpath = final_paths()
   if fs.exists(cpath) and fs.read(cpath) != COMPRESSED:
-    return 'downloaded file %s is visible under its final name with %d of %d bytes' % (cpath, fs.size(cpath), len(COMPRESSED))
+    return 'downloaded file %s is visible under its final name with %d of %d bytes' % (cpath, fs.size(cpath), VLEN)
   if fs.exists(dpath) and fs.read(dpath) != PAYLOAD:
     return 'decompressed file %s is visible under its final name with %d of %d bytes' % (dpath, fs.size(dpath), len(PAYLOAD))
   return None
